@@ -1,4 +1,139 @@
+(* C12 -- Merkle fixed tree commits to every node and proofs are sound.  Property theorems only.
+
+   H is the hash function of the tree (valuehash.NewSHA256), universally quantified with the only hypothesis
+   that its outputs have 32 bytes.  Statements that depend on collision resistance are in reduction form:
+   "... \/ collision H" where  collision H := exists x y, x <> y /\ H x = H y ; all proofs are constructive
+   (Print Assumptions: closed), so the colliding pair is computed from the inputs of the theorem. *)
 From Coq Require Import List NArith ZArith Arith Bool.
-From MV Require Import C12.Model C12.Proofs.
+From MV Require Import Gen.C12 C12.Model C12.Proofs C12.Proofs2 C12.Proofs3 C12.Proofs4 C12.Proofs5.
 Import ListNotations.
 Open Scope list_scope.
+
+(* A tree validates iff every node is well-formed and its hash is H(key ++ left child's hash ++ right child's hash)
+   (absent children contribute nothing; children of node i are 2i+1, 2i+2). *)
+Theorem C12_valid_iff : forall (H : bytes -> bytes) t,
+  is_valid H t = true <->
+  (forall i n, nth_error t i = Some n ->
+     node_valid n = true /\ nkey n <> [] /\
+     nhash n = H (nkey n ++ child_hash t (2 * i + 1) ++ child_hash t (2 * i + 2))).
+Proof. exact valid_iff_explicit. Qed.
+
+(* The index arithmetic of tree.go (indexHeight by log2, children/parent by powers of two) is heap indexing. *)
+Theorem C12_index_arith : forall size i : nat,
+  go_children (N.of_nat size) (N.of_nat i) = nat_pair_to_N (children size i) /\
+  go_parent (N.of_nat i) = option_map N.of_nat (parent i).
+Proof. exact index_arith_nat. Qed.
+
+(* Writer: every non-empty list of non-empty keys yields a tree; that tree is valid and carries the keys in order. *)
+Theorem C12_generated_valid : forall (H : bytes -> bytes), (forall x, length (H x) = 32) ->
+  forall ks, ks <> [] -> (forall k, In k ks -> k <> []) ->
+  exists t, generate H ks = Some t /\ is_valid H t = true /\ map nkey t = ks /\ t <> [].
+Proof.
+  intros H Hlen ks N NE. destruct (generate_total H ks N NE) as [t G]. exists t. split; [exact G|].
+  exact (generated_valid H Hlen ks t G).
+Qed.
+
+(* For every key of a valid tree of any size (first occurrence at index; the key not repeated at the two children
+   of that node, e.g. keys pairwise different) the extracted proof exists, verifies, has odd length and ends in the root. *)
+Theorem C12_proof_complete : forall (H : bytes -> bytes), (forall x, length (H x) = 32) ->
+  forall t key index, is_valid H t = true ->
+  find_index (key_is key) t 0 = Some index ->
+  (forall c n, c = 2 * index + 1 \/ c = 2 * index + 2 -> nth_error t c = Some n -> nkey n <> key) ->
+  exists p, extract t key = Some p /\ prove H p key = true /\ Nat.odd (length p) = true /\
+            nhash (last p empty_node) = child_hash t 0.
+Proof. exact proof_complete. Qed.
+
+(* Changing one field of one node of a valid tree: another hash -> invalid; an empty node -> invalid;
+   another key -> invalid, or the old and new hash inputs of that node are a collision of H. *)
+Theorem C12_tree_mutation : forall (H : bytes -> bytes), (forall x, length (H x) = 32) ->
+  forall t i n n', is_valid H t = true -> nth_error t i = Some n ->
+  (nkey n' = nkey n -> nhash n' <> nhash n -> is_valid H (replace_nth t i n') = false) /\
+  (nempty n' = true -> is_valid H (replace_nth t i n') = false) /\
+  (nkey n' <> nkey n -> nhash n' = nhash n ->
+     is_valid H (replace_nth t i n') = false \/
+     (node_input t i n <> node_input t i n' /\ H (node_input t i n) = H (node_input t i n'))).
+Proof.
+  intros H Hlen t i n n' V E. split; [|split].
+  - intros K D. exact (mutation_hash H Hlen t i n n' V E K D).
+  - intro Em. apply (mutation_empty H Hlen t i n'); auto. apply nth_error_Some. congruence.
+  - intros K D. exact (mutation_key H Hlen t i n n' V E K D).
+Qed.
+
+(* Two valid trees of the same size with the same root hash have the same keys at every index, or a collision
+   is found at some index. *)
+Theorem C12_root_binds_keys : forall (H : bytes -> bytes), (forall x, length (H x) = 32) ->
+  forall t t', length t = length t' -> is_valid H t = true -> is_valid H t' = true ->
+  child_hash t 0 = child_hash t' 0 ->
+  map nkey t = map nkey t' \/ collide_at H t t'.
+Proof. exact root_binds_keys. Qed.
+
+(* The root changes whenever any key changes (trees generated from key lists of the same length). *)
+Theorem C12_root_changes : forall (H : bytes -> bytes), (forall x, length (H x) = 32) ->
+  forall ks ks' t t', generate H ks = Some t -> generate H ks' = Some t' ->
+  length ks = length ks' -> ks <> ks' ->
+  child_hash t 0 <> child_hash t' 0 \/ collision H.
+Proof. exact root_changes. Qed.
+
+(* Soundness: a proof accepted for key whose last node carries the hash of a node of a valid tree (the root,
+   when compared with the trusted root) proves that key is a key of that tree -- or yields a collision.
+   Hypotheses on the untrusted proof: odd length (Proof.IsValid), hashes of 0 or 32 bytes, key lengths within
+   32 bytes of the tree's key lengths (so that key ++ hashes is uniquely decomposable). *)
+Theorem C12_proof_sound : forall (H : bytes -> bytes), (forall x, length (H x) = 32) ->
+  forall t, is_valid H t = true ->
+  forall p key, prove H p key = true -> Nat.odd (length p) = true -> wf_proof t p ->
+  in_tree_hash t (nhash (last p empty_node)) ->
+  collision H \/ exists i n, nth_error t i = Some n /\ nkey n = key.
+Proof. exact prove_sound. Qed.
+
+(* Every hash the verification of such a proof used (all nodes from the alignment on, and the two children
+   hashes of the first level) is a hash of a node of the tree or the empty hash of an absent child: replacing
+   any of them by a value that is not a hash of the tree makes Prove fail (or exhibits a collision).
+   Partial: a replacement by another hash of the same tree is not covered by a theorem (searched by the harness). *)
+Theorem C12_proof_mutation_partial : forall (H : bytes -> bytes), (forall x, length (H x) = 32) ->
+  forall t, is_valid H t = true ->
+  forall p key al, filter_nodes p key = Some al ->
+  prove H p key = true -> Nat.odd (length p) = true -> wf_proof t p ->
+  in_tree_hash t (nhash (last p empty_node)) ->
+  collision H \/
+  ((exists i n, nth_error t i = Some n /\ nkey n = key) /\
+   Forall (hash_ok t) (al_rest al) /\ hash_ok_b t (fst (pad_hashes al)) /\ hash_ok_b t (snd (pad_hashes al))).
+Proof. exact prove_sound_strong. Qed.
+
+(* The proved key itself is bound: the node that passes the first level carries the key and its hash is H over that key. *)
+Theorem C12_proof_binds_key : forall (H : bytes -> bytes) p key, prove H p key = true ->
+  exists c lh rh, In c p /\ nempty c = false /\ nkey c = key /\ nhash c = H (key ++ lh ++ rh).
+Proof. exact prove_binds_key. Qed.
+
+(* Known finding proof-sibling-key: the key of a proof node that is not on the path is not bound.  For every
+   hash function: tree with keys [1] [2] [3], proof of [2], the sibling renamed to [9]: Prove [2] still succeeds. *)
+Theorem C12_sibling_key_refuted : forall H : bytes -> bytes,
+  exists t p c c',
+    generate H [[1%N]; [2%N]; [3%N]] = Some t /\ extract t [2%N] = Some p /\
+    nth_error p 3 = Some c /\ nkey c' <> nkey c /\ nh c' = nh c /\ nempty c' = nempty c /\
+    prove H (replace_nth p 3 c') [2%N] = true.
+Proof. exact sibling_key_witness. Qed.
+
+(* the constant of valuehash.Bytes.IsValid the model depends on admits 32-byte hashes *)
+Theorem C12_hash_size_const : (32 <= max_bytes_hash_size)%Z.
+Proof. vm_compute. discriminate. Qed.
+
+(* ---- non-vacuity ---- *)
+Definition H0 (x : bytes) : bytes := firstn 32 (x ++ repeat 0%N 32).
+Example H0_len : forall x, length (H0 x) = 32.
+Proof.
+  intro x. unfold H0. apply firstn_length_le. rewrite app_length, repeat_length. apply Nat.le_add_l.
+Qed.
+
+Example C12_example_tree :
+  exists t p, generate H0 [[1%N]; [2%N]; [3%N]; [4%N]; [5%N]; [6%N]] = Some t /\ is_valid H0 t = true /\
+    extract t [5%N] = Some p /\ prove H0 p [5%N] = true /\ length p = 7 /\ prove H0 p [6%N] = false /\
+    wf_proof t p /\ in_tree_hash t (nhash (last p empty_node)).
+Proof.
+  eexists. eexists. split; [vm_compute; reflexivity|]. split; [vm_compute; reflexivity|].
+  split; [vm_compute; reflexivity|]. split; [vm_compute; reflexivity|]. split; [reflexivity|].
+  split; [vm_compute; reflexivity|]. split.
+  - unfold wf_proof. repeat constructor; simpl; auto;
+      intros n I; simpl in I; repeat (destruct I as [I|I]; [subst n; simpl; split; repeat constructor|]); contradiction.
+  - exists 0, (mkNode [1%N] (H0 ([1%N] ++ H0 ([2%N] ++ H0 [4%N] ++ H0 [5%N]) ++ H0 ([3%N] ++ H0 [6%N] ++ []))) false).
+    split; vm_compute; reflexivity.
+Qed.
